@@ -68,6 +68,39 @@ def block(txt, header, what):
     return txt[i:j]
 
 
+def block_after(txt, marker, fname):
+    """text from `marker` (unique) to the end of the first brace-balanced block after it"""
+    i = txt.find(marker)
+    if i < 0 or txt.find(marker, i + 1) >= 0:
+        raise Unexpected("%s: expected exactly one %r" % (fname, marker))
+    j = txt.index("{", i) + 1
+    depth = 1
+    while depth > 0:
+        if j >= len(txt):
+            raise Unexpected("%s: unbalanced braces after %r" % (fname, marker))
+        c = txt[j]
+        if c == "{":
+            depth += 1
+        elif c == "}":
+            depth -= 1
+        j += 1
+    return txt[i:j]
+
+
+# hand-modelled functions of raw.rs / mod.rs (pinned like the decoders)
+RAW_PINS = [
+    ("raw.rs", "pub fn read_header(data: &[u8])"),
+    ("raw.rs", "    fn new_impl<'a, CB>("),
+    ("raw.rs", "    pub fn from_header(header: &Header)"),
+    ("raw.rs", "    pub fn read<'a, CB>("),
+    ("raw.rs", "    pub fn cids(&self)"),
+    ("raw.rs", "    fn read_more<CB: Callback>("),
+    ("raw.rs", "    fn read_kind<CB>("),
+    ("raw.rs", "    fn read_item<'a, CB>("),
+    ("mod.rs", "pub fn read_magic(p: &mut Unpacker)"),
+]
+
+
 def norm(s):
     return re.sub(r"\s+", " ", s).strip()
 
@@ -217,6 +250,11 @@ def main(repo):
     for name, hdr in HAND.items():
         pins.append((name, short_sha(block(item, hdr, name))))
 
+    raw = open(os.path.join(repo, "teehistorian", "src", "raw.rs")).read()
+    for fname, marker in RAW_PINS:
+        txt = raw if fname == "raw.rs" else mod
+        pins.append((fname + ":" + marker.strip().split("(")[0].split("<")[0], short_sha(block_after(txt, marker, fname))))
+
     # ---- emit
     s = []
     s.append("(* GENERATED by tools/gen_teehistorian.py from teehistorian/src/format/{mod,item}.rs - do not edit *)")
@@ -253,7 +291,7 @@ def main(repo):
     s.append("(* every pass-through tag (for finite sweeps) *)")
     s.append("Definition all_tags : list ptag := [%s]." % "; ".join("T" + t for t in tags))
     s.append("")
-    s.append("(* sha256 prefixes of the whitespace-normalised source of the hand-modelled decoders;")
+    s.append("(* sha256 prefixes of the whitespace-normalised source of the hand-modelled functions;")
     s.append("   Model/Teehistorian.v states the values it was written against (hand_pins) and")
     s.append("   Props/C17.v proves the two lists equal *)")
     s.append("Definition src_pins : list (list Z) := [")
